@@ -17,6 +17,18 @@ CHECKS = {
   text="Streams of 1-3 (thorough: 4) NAL units with every size 1..20 (26), every start-code length pattern in {3,4}^n and three content classes (filler, interior zeros, interior 00 00 03), plus all type sequences of length <= 4 over the AVC and HEVC type alphabets, are pushed through ExtractNalusFromByteStream, ConvertByteStreamToNaluSample, ConvertSampleToByteStream, GetNalusFromSample, FindNaluTypes[UpToFirstVideo], ContainsNaluType, IsIDR/IsRAP, HasParameterSets, GetParameterSets[FromByteStream], ExtractNalusOfTypeFromByteStream and GetFirstAVCVideoNALUFromByteStream; every result must equal what the generating unit list implies.",
   note="Well-formed streams only (units non-empty, emulation-free, last byte non-zero, NAL type 0 excluded). Sizes are bounded; the word-at-a-time scanner is exercised at every alignment modulo 8 and every tail length.",
   design="3 C14"),
+ "C06": dict(
+  engine="E3 product enumerator",
+  technique="exhaustive product enumeration of clear fragmented files (codec x scheme x IV x key x NAL-unit layouts at the size thresholds x fragment shapes x extra-box subsets); real encrypt -> encode -> decode -> decrypt cycle; result read by an independent fragment reader and box walker and compared with the generator's ground truth",
+  text="~77 000 (thorough: ~1.2 million) files: AVC/HEVC samples of 1-3 NAL units (slice NAL units with real headers from the C15 serializers in 3 variants, non-VCL units) with every unit size 1..420 (thorough 1..1200, 4095..4097, 65535..70000), all class patterns of 2 and 3 units over size subsets, 39..43 protected units per sample, clear runs around 65535/131070 bytes, AAC frame sizes 1..200 (2100), 5 IVs incl. counter wrap and 8-byte, 2 keys, 1-2 fragments, every subset of <= 3 (4) of 10 extra boxes in moof/traf. After DecodeFile/InitProtect/EncryptFragment/Encode and DecodeFile/DecryptInit/DecryptSegment/Encode: every sample byte-identical, count/size/duration/flags/cto/decode time unchanged, sample entry type restored, list of all non-protection boxes unchanged, data offsets checked through the sample bytes (ref/fragref). Five third-party encrypted test files decrypt to identical sizes and timing.",
+  note="Exhaustive over the stated product, not over all payloads. One track and one trun per traf (EncryptFragment's own limits). The cmd tools' encryptFile/decryptFile wrappers are mirrored call by call, not driven.",
+  design="3 C06"),
+ "C07": dict(
+  engine="E3 product enumerator",
+  technique="exhaustive product enumeration (same cases as C06); the encrypted bytes are parsed by an independent box walker and compared with an independent CENC reference (own AES-CTR and AES-CBC pattern modes over the AES block primitive) and with the generator's NAL map",
+  text="For every case of the C06 enumeration the encrypted file is read with ref/boxwalk: tenc/schm/frma; per sample the senc entry; sub-sample entries partition the sample; NAL length fields, NAL headers, non-VCL units and (cbcs) slice headers clear; every VCL unit > 127 bytes protected to its end, starting <= 127 bytes in and in 16-byte multiples (cenc) or at the slice header end (cbcs); audio whole; saiz sizes = senc entry sizes, saio offset = first entry; IV(k+1) = IV(k) + blocks used; protected bytes = ref/cencref; every other box of the fragment identical to the clear input.",
+  note="AES block primitive of the Go standard library trusted; the modes are re-implemented and self-tested against NIST SP 800-38A vectors. One known finding (saiz entry size wraps above 255) listed in known_findings.txt.",
+  design="3 C07"),
  "C16": dict(
   engine="E1-style explicit-state search over byte strings (isolated workers)",
   technique="explicit-state search: states = byte strings reached from ~1000 valid elementary-stream seeds by every single deviation (bit, byte, word, truncation, inserted runs, spliced huge Exp-Golomb code at every bit offset) plus all short strings; every state fed to every codec-helper entry point in RLIMIT_AS-isolated workers; oracle per call: recovered panic, time, allocated bytes",
